@@ -23,9 +23,12 @@ pub enum Method {
     /// call fails and is retried) and then delivers only the scheduled few bytes: read errors and
     /// short reads interleaved, the way a slow pipe behaves
     EncodeReadFaulty,
+    /// the block is read into a SEPARATE arena (a dedicated I/O arena, as a chunker or another codec
+    /// would own) and handed over with encode_anchored: the encoder's own arena only holds headers
+    AnchoredForeign,
 }
 pub const METHODS: [Method; 3] = [Method::Copy, Method::Borrow, Method::EncodeRead];
-pub const ALL_METHODS: [Method; 4] = [Method::Copy, Method::Borrow, Method::EncodeRead, Method::EncodeReadFaulty];
+pub const ALL_METHODS: [Method; 5] = [Method::Copy, Method::Borrow, Method::EncodeRead, Method::EncodeReadFaulty, Method::AnchoredForeign];
 
 struct EintrReader;
 impl Read for EintrReader {
@@ -193,6 +196,7 @@ fn run_config_inner(cfg: &Config) -> Result<RunStats, String> {
     let planned = cfg.total.min(cfg.max_calls.saturating_mul(mean_call.max(1))).max(1);
     let mut stats = RunStats { unit, ..Default::default() };
     let mut enc: Encoder<'static> = Encoder::new();
+    let mut io_arena = ByteArena::new();
     let mut dec: Option<Decoder<'static>> = if cfg.chained { Some(Decoder::new()) } else { None };
     let mut sink: Vec<u8> = Vec::new();
     let mut dsink: Vec<u8> = Vec::new();
@@ -221,6 +225,13 @@ fn run_config_inner(cfg: &Config) -> Result<RunStats, String> {
                 if n != len {
                     return Err(format!("encode_read returned {} of {}", n, len));
                 }
+            }
+            Method::AnchoredForeign => {
+                let block = io_arena.read_n(FullReader(data), len, NonZeroUsize::MAX).map_err(|e| format!("read_n failed: {}", e))?;
+                if block.slice().len() != len {
+                    return Err(format!("read_n returned {} of {}", block.slice().len(), len));
+                }
+                enc.encode_anchored(block);
             }
             Method::EncodeReadFaulty => {
                 let ask = 65_536usize.max(len);
@@ -319,6 +330,7 @@ fn run_config_inner(cfg: &Config) -> Result<RunStats, String> {
         }
     }
     drop(out);
+    drop(io_arena);
     let live1 = (ByteArena::num_live_chunks(), ByteArena::num_live_bytes());
     if live1 != live0 {
         return Err(format!("[leak] arena leak after drop: live (chunks, bytes) {:?} -> {:?}", live0, live1));
@@ -392,6 +404,16 @@ fn run_grid(ctx: &Ctx, rep: &mut Report, unit: &mut usize, roundtrip_only: bool)
                         continue;
                     }
                     grid.push(Config { schedule: sched.clone(), method: Method::EncodeReadFaulty, shape, drain, chained, total, max_calls: max_calls / 4 });
+                }
+            }
+        }
+    }
+    // blocks read through a separate I/O arena and handed over anchored (borrowed: > 256 bytes)
+    if !roundtrip_only {
+        for sched in [vec![1000usize], vec![5000], vec![70_000], vec![5000, 1000]] {
+            for shape in SHAPES {
+                for chained in [false, true] {
+                    grid.push(Config { schedule: sched.clone(), method: Method::AnchoredForeign, shape, drain: DrainApi::AdvanceTotal, chained, total, max_calls });
                 }
             }
         }
